@@ -348,3 +348,24 @@ class R:
             else:
                 out.append(fmt_src(d))
         return ", ".join(out)
+
+
+# ------------------------------------------------------------------------------------------------
+def limits_guards(r: R, ctx: Ctx, srcs_a: Set[tuple], srcs_b: Set[tuple]):
+    """ValueError raise-guards whose condition depends on (the knot vector of) both operands"""
+    out = []
+    for g in r.raise_guards(ctx, ("ValueError",)):
+        v = ctx.val(g[0].ast)
+        if v is None:
+            continue
+        d = v.all_dep()
+        if any(R.dep_has(d, a) for a in srcs_a) and any(R.dep_has(d, b) for b in srcs_b):
+            out.append(g)
+    return out
+
+
+def falls_through(ctx: Ctx) -> List[Node]:
+    """nodes from which the function end is reached without a `return` (implicit None)"""
+    cfg = ctx.cfg
+    live = cfg.live_nodes()
+    return [cfg.nodes[p] for p, lab in cfg.nodes[cfg.exit].pred if p in live and not isinstance(cfg.nodes[p].ast, ast.Return)]
